@@ -1,4 +1,5 @@
-(* CsvModel.v — executable mirror of the CSV archive of /repo as it is (defects included):
+(* CsvModel.v — executable mirror of the CSV archive of /repo as it is (after the fix: commits 598f817 e6b2b49 c131fe5 04a3ed1;
+   the remaining defects F18 and F22 included):
      src/csv/csv_writers.cpp   WriteEscapedValue, CCsvStringWriter, CCsvStreamWriter (UTF-8 target)
      src/csv/csv_readers.cpp   CCsvStringReader, CCsvStreamReader
      src/csv/csv_archive.cpp   ValidateSeparator and the four root scope constructors
@@ -41,7 +42,7 @@ Definition validate_separator (sep : N) : bool := existsb (N.eqb sep) [44; 59; 9
 
 (* ================= csv_writers.cpp: WriteEscapedValue (12-46) ================= *)
 
-Definition must_escape (sep c : N) : bool := (c =? DQ) || (c =? sep) || (c =? LF).   (* line 19 *)
+Definition must_escape (sep c : N) : bool := (c =? DQ) || (c =? sep) || (c =? LF) || (c =? CR).   (* line 19 *)
 
 (* the scan of lines 16-23: (the part before `it`, the part from `it` on) *)
 Fixpoint find_special (sep : N) (l : list N) : list N * list N :=
@@ -227,7 +228,7 @@ Fixpoint parse_line (sep : N) (l : list N) (pos start dq : nat) (cr : option nat
     else if (c =? sep) && Nat.even dq then
       let acc' := mk_value start pos dq :: acc in
       match t with
-      | [] => (acc', S pos)                              (* 172: mCurrentPos == size after the separator: break *)
+      | [] => (mkMeta (S pos) 0 false :: acc', S pos)    (* 172-179: the text ends with the separator: one more, empty, value *)
       | _ => parse_line sep t (S pos) (S pos) 0 None acc'
       end
     else if c =? CR then parse_line sep t (S pos) start dq (Some pos) acc
@@ -516,13 +517,23 @@ Definition s_unescape (buf : list N) (b e : nat) : outcome (list N * list N) :=
 Definition s_with (s : sreader) (buf : list N) (validx : nat) : sreader :=
   mkS buf (s_esr s) (s_headers s) (s_metas s) (s_pos s) (s_line s) (s_rowidx s) validx (s_prev s).
 
-(* ReadValue(out_value) (277-295): end = Offset + Size *)
+(* valueMeta.Size = ...; valueMeta.HasEscapedChars = false (the meta is a reference into mRowValuesMeta) *)
+Fixpoint set_nth {A} (i : nat) (x : A) (l : list A) : list A :=
+  match l with
+  | [] => []
+  | y :: l' => match i with O => x :: l' | S i' => y :: set_nth i' x l' end
+  end.
+
+Definition s_with_meta (s : sreader) (buf : list N) (validx : nat) (i : nat) (m : meta) : sreader :=
+  mkS buf (s_esr s) (s_headers s) (set_nth i m (s_metas s)) (s_pos s) (s_line s) (s_rowidx s) validx (s_prev s).
+
+(* ReadValue(out_value) (277-295): end = Offset + Size; an unescaped value is remembered as such *)
 Definition s_read_next (s : sreader) : outcome (list N * sreader) :=
   match nth_error (s_metas s) (s_validx s) with
   | Some m =>
     if m_esc m then
       match s_unescape (s_buf s) (m_off m) (m_off m + m_size m) with
-      | Ok (v, buf') => Ok (v, s_with s buf' (S (s_validx s)))
+      | Ok (v, buf') => Ok (v, s_with_meta s buf' (S (s_validx s)) (s_validx s) (mkMeta (m_off m) (length v) false))
       | Err e => Err e | Terminate => Terminate | UB => UB | OutOfFuel => OutOfFuel
       end
     else Ok (slice (s_buf s) (m_off m) (m_size m), s_with s (s_buf s) (S (s_validx s)))
@@ -568,8 +579,7 @@ Definition s_parse_next_row (fuel K : nat) (with_header : bool) (sep : N) (s : s
   | Err e => Err e | Terminate => Terminate | UB => UB | OutOfFuel => OutOfFuel
   end.
 
-(* ReadValue(key, out_value) (246-275): the end of an escaped value is computed as data + Size (268),
-   without the offset *)
+(* ReadValue(key, out_value) (246-275) *)
 Definition s_read_key (with_header : bool) (s : sreader) (key : list N) : outcome (option (list N) * sreader) :=
   if negb with_header then Ok (None, s)
   else
@@ -579,8 +589,8 @@ Definition s_read_key (with_header : bool) (s : sreader) (key : list N) : outcom
          | None => Err StdOutOfRange
          | Some m =>
            if m_esc m then
-             match s_unescape (s_buf s) (m_off m) (m_size m) with
-             | Ok (v, buf') => Ok (Some v, s_with s buf' idx)
+             match s_unescape (s_buf s) (m_off m) (m_off m + m_size m) with
+             | Ok (v, buf') => Ok (Some v, s_with_meta s buf' idx idx (mkMeta (m_off m) (length v) false))
              | Err e => Err e | Terminate => Terminate | UB => UB | OutOfFuel => OutOfFuel
              end
            else Ok (Some (slice (s_buf s) (m_off m) (m_size m)), s_with s (s_buf s) idx)
